@@ -386,6 +386,25 @@ func (a *RF) IsConst() (*big.Rat, bool) {
 		if n, ok := a.N.isConst(); ok {
 			return new(big.Rat).Quo(n, c), true
 		}
+		return nil, false
+	}
+	// numerator a constant multiple of the (non-constant) denominator: the sums and differences
+	// of two fractions over the same denominator end up here (y + (1 - y) with y = p/q)
+	if len(a.N.terms) == len(a.D.terms) && len(a.D.terms) > 0 {
+		var ratio *big.Rat
+		for k, dt := range a.D.terms {
+			nt, ok := a.N.terms[k]
+			if !ok || dt.coef.Sign() == 0 {
+				return nil, false
+			}
+			q := new(big.Rat).Quo(nt.coef, dt.coef)
+			if ratio == nil {
+				ratio = q
+			} else if ratio.Cmp(q) != 0 {
+				return nil, false
+			}
+		}
+		return ratio, true
 	}
 	return nil, false
 }
